@@ -450,9 +450,52 @@ def fake_psutil(proc):
             except ProcessLookupError:
                 raise NoSuchProcess(self.pid) from None
 
+        def is_running(self):
+            p = RT.kernel.procs.get(self.pid)
+            return p is not None and not p.reaped
+
+        def wait(self, timeout=None):
+            """like psutil: a child of the caller is waited for with waitpid() - and so reaped -, any other
+            process is polled until its pid is gone."""
+            k = RT.kernel
+            p = k.procs.get(self.pid)
+            if p is None or p.reaped:
+                return None
+            RT.sched.yield_("psutil.wait")
+            if p.alive:
+                RT.sched.block_until(lambda: not p.alive, timeout, "waitpid")
+                if p.alive:
+                    raise TimeoutExpired(timeout)
+            if p.ppid == proc.pid and not p.reaped:
+                p.reaped = True
+                k.log.append(("reap", p.pid, proc.pid))
+                kind, v = p.status
+                return v if kind == "exit" else -v
+            return None
+
+    class TimeoutExpired(Exception):
+        pass
+
+    def wait_procs(procs, timeout=None, callback=None):
+        gone, alive = [], []
+        for q in procs:
+            try:
+                q.wait(timeout)
+                gone.append(q)
+            except TimeoutExpired:
+                alive.append(q)
+        return gone, alive
+
+    def pid_exists(pid):
+        p = RT.kernel.procs.get(pid)
+        return p is not None and not p.reaped
+
     m = types.ModuleType("psutil")
     m.Process = Process
     m.NoSuchProcess = NoSuchProcess
+    m.TimeoutExpired = TimeoutExpired
+    m.wait_procs = wait_procs
+    m.pid_exists = pid_exists
     return m
 
 
@@ -976,7 +1019,7 @@ def start_process(child):
 
 # ------------------------------------------------------------------ line tracing
 TRACE_FILES = ("loky/process_executor.py", "loky/reusable_executor.py",
-               "loky/backend/queues.py", "loky/backend/synchronize.py")
+               "loky/backend/queues.py", "loky/backend/synchronize.py", "loky/backend/popen_loky_posix.py")
 
 
 def _local_trace(frame, event, arg):
